@@ -43,6 +43,17 @@ def blockSigops : Block :=
 
 def mtp0 : Nat → Nat := fun _ => 0
 
+/-- a coinbase whose INPUT script is `sig` and which carries 999 OP_CHECKMULTISIG (legacy count 20 each: cost
+    4·20·999 = 79920) in a second, zero-value output -/
+def cbSig (sig : Bytes) : Tx :=
+  { cbTx 5000000000 with
+    ins := [{ prev := ⟨nullHash, 0xffffffff⟩, scriptSig := sig, sequence := 0xffffffff, witness := [], scriptOk := true }],
+    outs := [⟨5000000000, [0x51]⟩, ⟨0, List.replicate 999 0xae⟩] }
+/-- coinbase input script `push(200) OP_CHECKMULTISIG`: 20 more sigops, cost 80 — the block is exactly full (80000) -/
+def blockCbSigFull : Block := blk [cbSig [1, 200, 0xae]]
+/-- one OP_CHECKSIG more in the coinbase input script: 80004, only the coinbase scriptSig takes the block over the limit -/
+def blockCbSigOver : Block := blk [cbSig [1, 200, 0xae, 0xac]]
+
 /-- a plainly valid block: spends (h1,0) into one output -/
 def blockOk : Block := blk [cbTx 5000000000, spend 1 1 h1 0xffffffff [⟨900, [0x51]⟩]]
 
